@@ -55,6 +55,13 @@ MUTANTS = {
     'cs_end_timestamp': (P + 'callstacks_parser.py', "yield Callstack(trace.ktraces[0].timestamp, trace.ktraces[0].tid, frames)", "yield Callstack(trace.ktraces[-1].timestamp, trace.ktraces[0].tid, frames)", ['C15']),
     'cs_insert_append': (P + 'callstacks_parser.py', "        index_ = bisect(self.dyld_addresses, address)\n", "        index_ = len(self.dyld_addresses)\n", ['C15']),
     'cs_launch_ignored': (P + 'callstacks_parser.py', "            elif isinstance(trace, DyldLaunchExecutable):\n                for image in trace.uuid_map_a:\n                    self.insert_image(image.load_addr, image.uuid)", "", ['C15']),
+    'no_trace_helper': (P + 'pykdebugparser.py', "        if add_trace_class:\n            filter_class.append(DBG_TRACE)", "        if False:\n            filter_class.append(DBG_TRACE)", ['C13']),
+    'fs_postfilter_dropped': (P + 'pykdebugparser.py', "            trace_generator = filter(lambda t: t.ktraces[0].eventid >> 24 != DBG_FSYSTEM, trace_generator)", "            pass", ['C13']),
+    'proc_filter_by_name_only': (P + 'pykdebugparser.py', "return self.filter_process == str(pid) or self.filter_process == process_name", "return self.filter_process == process_name", ['C13']),
+    'class_shift_16': (P + 'pykdebugparser.py', "return (event_id >> 24 in filter_class)", "return (event_id >> 16 in filter_class)", ['C12', 'C13']),
+    'filter_and': (P + 'pykdebugparser.py', "return (event_id >> 24 in filter_class) or (event_id >> 16 in self.filter_subclass)", "return (event_id >> 24 in filter_class) and (event_id >> 16 in self.filter_subclass or not self.filter_subclass)", ['C12']),
+    'mutate_callers_list': (P + 'pykdebugparser.py', "filter_class = list(self.filter_class)", "filter_class = self.filter_class", ['C13']),
+    'img_residue': (P + 'pykdebugparser.py', "        self.dyld_addresses.clear()\n        self.dyld_uuids.clear()\n", "", ['C13']),
 }
 
 
